@@ -14,7 +14,15 @@ RULE = ("cases = calls of distance / distance_fast / dtw_cc.distance(_ndim) / wa
 ASSUME = ["thresholds are kept outside a 1e-6 relative neighbourhood of the unbounded distance",
           "use_pruning is judged only where the Euclidean distance is a valid upper bound (no max_step; no "
           "penalty or equal lengths)", "C vs C and Python vs Python comparisons (no cross-engine oracle)"]
-PLAN = Plan("C03", RULE, ASSUME,
+def _own_suite(tier, seed, scratch):
+    """thorough: the repository's own unedited tests are one more workload under this property's monitors"""
+    if tier != "thorough":
+        return None, None, None
+    from vf import ownsuite
+    return ownsuite.run(scratch, "c03", "C03")
+
+
+PLAN = Plan("C03", RULE, ASSUME, native=_own_suite,
             workers={"quick": [("plain", 16, "C03")], "thorough": [("plain", 13, "C03"), ("asan", 3, "C03")]},
             deciding=("c03_relational_checks", "c03_pruning_checks", "c03_matrix_cells_checked",
                       "reach:python_pruning_break"),
